@@ -148,6 +148,49 @@ Section Monitor.
     | l :: r => match step s l with Some s' => run s' r | None => None end
     end.
 
+  (* A thread that is outside every call gets a new list of calls.  NOT a label of [step]: it is
+     the hook by which a component whose threads decide what to call next from unguarded reads
+     or from the result of the previous call (ThreadPool's worker loop, C15) embeds this
+     semantics into its own step relation; Conc_Proofs shows that it preserves every generic
+     invariant. *)
+  Definition set_prog (t : nat) (p : list op) (s : sys) : option sys :=
+    match nth_error (threads s) t with
+    | Some th =>
+        match st th with
+        | Idle => Some (mkSys (shared s) (owner s) (holder s) (upd t (mkThread p Idle) (threads s)) (hist s))
+        | _ => None
+        end
+    | None => None
+    end.
+
+  Definition is_spurious (l : label) : bool := match l with LSpurious _ => true | _ => false end.
+  Definition nspur (ls : list label) : nat := length (filter is_spurious ls).
+  Definition nonspur (ls : list label) : nat := length (filter (fun l => negb (is_spurious l)) ls).
+
+  (* ranking function (Conc_Proofs.measure_step): every step that is not an injected spurious
+     wake-up strictly decreases it, a spurious wake-up raises it by 2 *)
+  Definition rank (th : thread) : nat :=
+    match st th with Idle => 3 | InCS => 2 | Waiting _ => 1 | Signalled => 3 end.
+  Definition tsum (f : thread -> nat) (ths : list thread) : nat := fold_right (fun th a => f th + a) 0 ths.
+  Definition measure (s : sys) : nat :=
+    (3 * length (threads s) + 1) * tsum (fun th => length (prog th)) (threads s) + tsum rank (threads s).
+
+  (* can thread t make a step that is not a spurious wake-up? *)
+  Definition can_move (s : sys) (t : nat) : bool :=
+    match step s (LAcquire t), step s (LBody t []), step s (LReacquire t) with
+    | None, None, None => false
+    | _, _, _ => true
+    end.
+  Definition some_move (s : sys) : option label :=
+    match filter (can_move s) (seq 0 (length (threads s))) with
+    | [] => None
+    | t :: _ => match step s (LAcquire t), step s (LBody t []) with
+                | Some _, _ => Some (LAcquire t)
+                | None, Some _ => Some (LBody t [])
+                | None, None => Some (LReacquire t)
+                end
+    end.
+
   (* nothing but spurious wake-ups can happen *)
   Definition quiescent (s : sys) : Prop :=
     forall l s', step s l = Some s' -> exists t, l = LSpurious t.
@@ -185,3 +228,9 @@ Arguments quiescent {S op res} body s.
 Arguments finished {op} th.
 Arguments count {op} f ths.
 Arguments nwaiting {S op res} c s.
+Arguments set_prog {S op res} t p s.
+Arguments rank {op} th.
+Arguments tsum {op} f ths.
+Arguments measure {S op res} s.
+Arguments can_move {S op res} body s t.
+Arguments some_move {S op res} body s.
